@@ -21,9 +21,9 @@ import (
 // printed code rebuilds another plugin's object. The monitor walks the conversion plan the real
 // ConverterGenerator returns for every builder and checks each delegation against the builders in the context.
 
-func c14ComposeSchemas(plugins []composePlugin) ast.Schemas {
+func c14ComposeSchemas(plugins []composePlugin, typeName string) ast.Schemas {
 	core := ast.NewSchema("core", ast.SchemaMeta{})
-	core.AddObject(ast.NewObject("core", "Widget", ast.NewStruct(
+	core.AddObject(ast.NewObject("core", typeName, ast.NewStruct(
 		ast.NewStructField("type", ast.String(), ast.Required()),
 		ast.NewStructField("title", ast.String(), ast.Required()),
 		ast.NewStructField("options", ast.Any()),
@@ -31,9 +31,9 @@ func c14ComposeSchemas(plugins []composePlugin) ast.Schemas {
 	board := ast.NewSchema("board", ast.SchemaMeta{})
 	board.AddObject(ast.NewObject("board", "Board", ast.NewStruct(
 		ast.NewStructField("name", ast.String(), ast.Required()),
-		ast.NewStructField("widgets", ast.NewArray(ast.NewRef("core", "Widget")), ast.Required()),
-		ast.NewStructField("main", ast.NewRef("core", "Widget")),
-		ast.NewStructField("byName", ast.NewMap(ast.String(), ast.NewRef("core", "Widget"))),
+		ast.NewStructField("widgets", ast.NewArray(ast.NewRef("core", typeName)), ast.Required()),
+		ast.NewStructField("main", ast.NewRef("core", typeName)),
+		ast.NewStructField("byName", ast.NewMap(ast.String(), ast.NewRef("core", typeName))),
 	)))
 	schemas := ast.Schemas{core, board}
 	for _, p := range plugins {
@@ -53,6 +53,7 @@ type c14Delegation struct {
 	target languages.BuilderArgMapping
 	choice bool
 	group  int // choices of one BuilderDisjunction share a group
+	runtime string
 }
 
 var c14Group int
@@ -60,6 +61,7 @@ var c14Group int
 var (
 	c14ChoiceT  = reflect.TypeOf(languages.BuilderChoiceMapping{})
 	c14BuilderT = reflect.TypeOf(languages.BuilderArgMapping{})
+	c14RuntimeT = reflect.TypeOf(languages.RuntimeArgMapping{})
 	c14AstTypeT = reflect.TypeOf(ast.Type{})
 	c14AstPathT = reflect.TypeOf(ast.Path{})
 )
@@ -90,6 +92,14 @@ func c14CollectDelegations(v reflect.Value, out *[]c14Delegation, depth int) {
 		case c14ChoiceT:
 			c := v.Interface().(languages.BuilderChoiceMapping)
 			*out = append(*out, c14Delegation{guards: c.Guards, target: c.Builder, choice: true, group: c14Group})
+			return
+		case c14RuntimeT:
+			rt := v.Interface().(languages.RuntimeArgMapping)
+			d := c14Delegation{runtime: rt.FuncName}
+			if len(rt.Args) > 0 && rt.Args[0] != nil {
+				d.target.ValuePath, d.target.ValueType = rt.Args[0].ValuePath, rt.Args[0].ValueType
+			}
+			*out = append(*out, d)
 			return
 		case c14BuilderT:
 			*out = append(*out, c14Delegation{target: v.Interface().(languages.BuilderArgMapping)})
@@ -124,13 +134,19 @@ func checkC14Compose(r *Run) {
 			j := rng.Intn(i + 1)
 			plugins[i], plugins[j] = plugins[j], plugins[i]
 		}
-		schemas := c14ComposeSchemas(plugins)
+		// every third case calls the composed type Panel (outside package dashboard): cog's converter generator has a
+		// special case for dashboard.Panel only
+		typeName := "Widget"
+		if c%3 == 1 {
+			typeName = "Panel"
+		}
+		schemas := c14ComposeSchemas(plugins, typeName)
 		var builders ast.Builders
 		if pv, _ := guard(func() { builders = (&ast.BuilderGenerator{}).FromAST(schemas) }); pv != nil {
 			r.CaseInconclusive("BuilderGenerator panicked on the compose schemas")
 			continue
 		}
-		y := "language: all\npackage: core\nbuilders:\n  - compose:\n      by_variant: panelcfg\n      source_builder_name: core.Widget\n      plugin_discriminator_field: type\n      composition_map:\n        Options: options\noptions: []\n"
+		y := "language: all\npackage: core\nbuilders:\n  - compose:\n      by_variant: panelcfg\n      source_builder_name: core." + typeName + "\n      plugin_discriminator_field: type\n      composition_map:\n        Options: options\noptions: []\n"
 		f := filepath.Join(dir, fmt.Sprintf("compose-%d.yaml", c))
 		_ = os.WriteFile(f, []byte(y), 0o644)
 		rewriter, err := cogyaml.NewVeneersLoader().RewriterFrom([]string{f}, rewrite.Config{})
@@ -151,7 +167,7 @@ func checkC14Compose(r *Run) {
 		if !keepSource {
 			var kept ast.Builders
 			for _, b := range composed {
-				if !(b.Package == "core" && b.Name == "Widget") {
+				if !(b.Package == "core" && b.Name == typeName) {
 					kept = append(kept, b)
 				}
 			}
@@ -161,7 +177,7 @@ func checkC14Compose(r *Run) {
 		ctx := languages.Context{Schemas: schemas, Builders: composed}
 		widgetBuilders := 0
 		for _, b := range composed {
-			if b.For.SelfRef.ReferredPkg == "core" && b.For.Name == "Widget" {
+			if b.For.SelfRef.ReferredPkg == "core" && b.For.Name == typeName {
 				widgetBuilders++
 			}
 		}
@@ -169,7 +185,7 @@ func checkC14Compose(r *Run) {
 			widgetBuilders--
 		}
 		if widgetBuilders != len(plugins) {
-			r.CaseInconclusive(fmt.Sprintf("expected %d composed builders of core.Widget, found %d", len(plugins), widgetBuilders))
+			r.CaseInconclusive(fmt.Sprintf("expected %d composed builders of the core type, found %d", len(plugins), widgetBuilders))
 			continue
 		}
 		r.Eval()
@@ -183,10 +199,51 @@ func checkC14Compose(r *Run) {
 			var ds []c14Delegation
 			c14CollectDelegations(reflect.ValueOf(conv), &ds, 0)
 			guardSets := map[string]int{}
+			covered, coveredWant, coveredWhere := map[string]map[string]bool{}, map[string][]string{}, map[string]string{}
 			c14Group = 0
 			for _, d := range ds {
 				delegations++
 				where := fmt.Sprintf("converter of %s.%s, value %s [compose case %d, %d plugins]", b.Package, b.Name, d.target.ValuePath.String(), c, len(plugins))
+				if d.runtime != "" {
+					// cog hands dashboard.Panel values to a runtime hook; any other type with builders in the context
+					// has to be converted by one of those builders
+					vt := d.target.ValueType
+					if vt.Kind == ast.KindRef && !(strings.EqualFold(vt.Ref.ReferredPkg, "dashboard") && strings.EqualFold(vt.Ref.ReferredType, "panel")) && len(ctx.BuildersForType(vt)) > 0 {
+						r.Violation("compose/value-with-builders-handed-to-runtime-hook", fmt.Sprintf("a %s.%s value is handed to the runtime function %s although the context has builders for it: %s", vt.Ref.ReferredPkg, vt.Ref.ReferredType, d.runtime, where), replay)
+					}
+					continue
+				}
+				// every builder of the value's type that pins constants is a candidate the plan has to tell apart
+				if d.target.ValueType.Kind == ast.KindRef {
+					ref := d.target.ValueType.Ref
+					var cands []string
+					allPin := true
+					for _, cb := range composed {
+						if cb.For.SelfRef.ReferredPkg == ref.ReferredPkg && cb.For.SelfRef.ReferredType == ref.ReferredType {
+							cands = append(cands, cb.Package+"."+cb.Name)
+							pins := false
+							for _, a := range cb.Constructor.Assignments {
+								if a.Value.Constant != nil {
+									pins = true
+								}
+							}
+							allPin = allPin && pins
+						}
+					}
+					if len(cands) > 1 && allPin {
+						key := fmt.Sprintf("#%d %s", d.group, d.target.ValuePath.String())
+						if !d.choice {
+							r.Violation("compose/single-builder-for-a-type-with-several", fmt.Sprintf("the value is always delegated to %s.%s although %d builders (%s) build its type, told apart by the constants they pin: values of the other plugins are rebuilt as this one: %s", d.target.BuilderPkg, d.target.BuilderName, len(cands), strings.Join(cands, ", "), where), replay)
+						} else {
+							if covered[key] == nil {
+								covered[key] = map[string]bool{}
+								coveredWant[key] = cands
+								coveredWhere[key] = where
+							}
+							covered[key][d.target.BuilderPkg+"."+d.target.BuilderName] = true
+						}
+					}
+				}
 				var target *ast.Builder
 				for i := range composed {
 					if composed[i].Package == d.target.BuilderPkg && composed[i].Name == d.target.BuilderName {
@@ -235,6 +292,13 @@ func checkC14Compose(r *Run) {
 					r.Violation("compose/choice-guard-vs-builder-constants", fmt.Sprintf("when %s the value is delegated to %s.%s, whose constructor pins %s: re-executing the printed code builds another plugin's object: %s", strings.Join(got, ","), target.Package, target.Name, strings.Join(want, ","), where), replay)
 				}
 				guardSets[fmt.Sprintf("#%d %s|%s", d.group, d.target.ValuePath.String(), strings.Join(got, ","))]++
+			}
+			for _, key := range sortedKeys(covered) {
+				for _, cand := range coveredWant[key] {
+					if !covered[key][cand] {
+						r.Violation("compose/choice-list-misses-a-builder", fmt.Sprintf("no choice delegates to %s, one of the builders of the value's type: its values are not converted: %s", cand, coveredWhere[key]), replay)
+					}
+				}
 			}
 			for k, cnt := range guardSets {
 				if cnt > 1 {
